@@ -234,9 +234,12 @@ def run(ctx):
         ctx.add_tlc(r, "NormalizerTrace")
     ctx.traces(nacc)
     bad = set()
+    if any(i < 0 for i, _, _ in problems) and not any(i >= 0 for i, _, _ in problems):
+        ctx.machinery(f"NormalizerTrace: {problems}")
     for idx, kind, detail in problems:
         if idx < 0:
-            ctx.machinery(f"NormalizerTrace: {kind} {detail}")
+            ctx.note(f"NormalizerTrace: validation stopped early: {kind} {detail}")
+            continue
         bad.add(idx)
         t = traces[idx]
         if kind == "rejected":
@@ -260,9 +263,12 @@ def run(ctx):
     for r in results:
         ctx.add_tlc(r, "BackupTrace")
     ctx.traces(nacc)
+    if any(i < 0 for i, _, _ in problems) and not any(i >= 0 for i, _, _ in problems):
+        ctx.machinery(f"BackupTrace: {problems}")
     for idx, kind, detail in problems:
         if idx < 0:
-            ctx.machinery(f"BackupTrace: {kind} {detail}")
+            ctx.note(f"BackupTrace: validation stopped early: {kind} {detail}")
+            continue
         c = blabels[idx]
         hd = btraces[idx][0]
         ctx.violation(f"backup-trace-{kind}:{detail if kind == 'invariant' else 'step'}:n={hd['n']}:cap={hd['cap']}:fails={hd['fails']}",
